@@ -117,6 +117,11 @@ def _worker_generate(args):
     survey = len(args) > 5 and args[5]
     import hypothesis
     from hypothesis import HealthCheck, Phase, given, settings
+    try:  # cap the shrink phase (default 300 s per worker) - the minimal case is good enough after 40 s
+        import hypothesis.internal.conjecture.engine as _ce
+        _ce.MAX_SHRINKING_SECONDS = 40
+    except Exception:
+        pass
     mod = load_prop(pid)
     open_sigs = findings.open_signatures(pid)
     acc = Acc()
